@@ -160,7 +160,7 @@ def run(ctx: Ctx):
         return "infra"
     logging.disable(logging.CRITICAL)
     quick = ctx.tier == "quick"
-    n = 260 if quick else 6000
+    n = 500 if quick else 12000
     for g, text, trees, fn in corpus_cases():
         check_case(ctx, g, "corpus", text, trees, "corpus/" + fn)
     for i in range(n):
